@@ -94,12 +94,12 @@ def gen_listener(rng, tier):
         # with temporary values (SetTmpValue: the node forwarded a publish to the leader and shows it before it is applied)
         cases.append(Case("Tlisten-%d" % i, gen_listen_case(rng, rng.randrange(4, 40), alphabet_only=False), True, "random"))
     if big:
-        # every interleaving of <= 5 events over one key: two listeners, publish a/b, remove
+        # every interleaving of <= 4 events over one key: two listeners, publish a/b, remove
         evs = ["add d1|g1|t1 c=61 type=- desc=- hid={h} mark=- time=1 user=-",
                "add d1|g1|t1 c=62 type=- desc=- hid={h} mark=- time=1 user=-",
                "remove d1|g1|t1", "listen L{n} dl=future d1|g1|t1=61", "listen L{n} dl=future d1|g1|t1=-",
                "listen L{n} dl=past d1|g1|t1=62 d2|g1|t1=-", "tick"]
-        for n in range(1, 6):
+        for n in range(1, 5):
             for pat in itertools.product(range(len(evs)), repeat=n):
                 ops = [evs[p].format(h=j + 1, n=j + 1) for j, p in enumerate(pat)]
                 cases.append(Case("listenx-%s" % "".join(map(str, pat)), ops + ["tick", "dump"], True, "exhaustive"))
@@ -133,7 +133,7 @@ class C10(Prop):
         "random interleavings (4-40 ops) of listen (1-3 keys, held md5 current/stale/none, deadline past/future/zero), "
         "tick, subscribe/unsubscribe/client removal and publish/remove over 5 keys and 3 contents on the real ConfigActor; "
         "long-poll answers observed on the real oneshot receivers, NotifyConfig through the hook log; thorough: every "
-        "interleaving of <=5 events over one key. oracle: a listener holding a differing md5 is answered at once, every "
+        "interleaving of <=4 events over one key. oracle: a listener holding a differing md5 is answered at once, every "
         "content change answers all waiting long-polls of the key and notifies all its subscribers, expired long-polls are "
         "answered by the next tick, nobody is answered twice. Generated cases avoid the region of known finding F13."))]
     trusted_base = [
